@@ -563,7 +563,7 @@ class Lab:
 def default_tracked(cfg) -> list[str]:
     """Keys the documentation says are tracked for this config."""
     kernel_keys = [k for spec in cfg["kernels"] for k in spec["keys"]]
-    if cfg["via"] == "builder":
+    if cfg["via"] in ("builder", "set_duration"):
         keys = kernel_keys + list(cfg.get("included", []))
         keys = [k for k in keys if k not in cfg.get("excluded", [])]
     else:
@@ -614,7 +614,7 @@ def build(cfg: dict) -> Lab:
     qgs = [TracerQuantity(cfg["kernels"][0]["keys"][0])] if cfg.get("qg") else []
     seed = cfg.get("seed", 0)
 
-    if cfg["via"] == "builder":
+    if cfg["via"] in ("builder", "set_duration"):
         b = gs.EngineBuilder(seed=seed, num_chains=chains)
         b.show_progress = False
         b.set_model(model)
@@ -628,7 +628,11 @@ def build(cfg: dict) -> Lab:
             b.add_kernel(k)
         for q in qgs:
             b.add_quantity_generator(q)
-        b.set_epochs([epoch_config(e) for e in sched[:prefix]])
+        if cfg["via"] == "set_duration":
+            w, p_, t, tp, tw = cfg["set_duration"]
+            b.set_duration(w, p_, term_duration=t, thinning_posterior=tp, thinning_warmup=tw)
+        else:
+            b.set_epochs([epoch_config(e) for e in sched[:prefix]])
         b.positions_included = list(cfg.get("included", []))
         b.positions_excluded = list(cfg.get("excluded", []))
         b.store_kernel_states = bool(cfg.get("store_kernel_states", False))
